@@ -17,6 +17,8 @@ while i < len(args):
         props = None if args[i + 1] == "all" else args[i + 1].split(","); i += 2
     elif args[i] == "--only":
         only = args[i + 1]; i += 2
+    elif args[i] == "--write-expected":
+        i += 1
     else:
         pos.append(args[i]); i += 1
 if pos:
@@ -71,6 +73,10 @@ with ThreadPoolExecutor(max_workers=int(os.environ.get("EVAL_JOBS", "12"))) as e
     for res, lines in ex.map(one, todo):
         results.append(res)
         print("\n".join(lines), flush=True)
+if "--write-expected" in sys.argv:
+    exp = {r[0].replace(os.sep, "-"): r[3] for r in results if r[2] != "noapply"}
+    json.dump(exp, open(os.path.join(root, "EXPECTED.json"), "w"), indent=1, sort_keys=True)
+    print("wrote", os.path.join(root, "EXPECTED.json"))
 n = len(results)
 det = sum(1 for r in results if r[2] == "DETECTED")
 oth = sum(1 for r in results if r[2] == "detected-by-other")
